@@ -299,7 +299,7 @@ pub fn check(c: &Case, obs: &mut Obs) -> Result<(), String> {
 }
 
 pub fn arb_case(p: TreeParams) -> BoxedStrategy<Case> {
-    (super::c06::arb_case(p.finite()), arb_path_for(TreeParams::small()), vec(any::<u16>(), 1..6), any::<u8>(), any::<u16>(), vec((any::<u16>(), any::<u16>(), arb_string()), 0..3))
+    (super::c06::arb_case(p.finite()), arb_path_for(TreeParams::small().finite()), vec(any::<u16>(), 1..6), any::<u8>(), any::<u16>(), vec((any::<u16>(), any::<u16>(), arb_string()), 0..3))
         .prop_map(|(mut args, pc, sels, lead, isel, ksel)| {
             // numbers of 8-40 characters and header-looking strings now and then
             if isel % 11 == 0 {
